@@ -175,11 +175,8 @@ template <typename CharT, typename SizeT>
 [[nodiscard]] constexpr auto strpbrk_impl(CharT* s, CharT* del) noexcept -> CharT*
 {
     auto const i = strspn<CharT, SizeT, false>(s, del);
-    if (i != 0) {
+    if (s[i] != CharT(0)) {
         return s + i;
-    }
-    if (is_legal_char<CharT, SizeT, true>(del, strlen<CharT, SizeT>(del), s[0])) {
-        return s;
     }
     return nullptr;
 }
